@@ -23,6 +23,9 @@ META = dict(
     outside="windows with more than 5 units; measure_best_window_size's cost model (concrete arithmetic, not a property of the result)",
     stubs=["Continuum.get_best_alignment = contract (fork over the oracle's exact covers of the window, assume optimal)", "dissimilarity = one free symbol >= 0 per unit pair, d and d_mat consistent"],
     assumptions=["units of one annotator listed by strictly increasing start", "pair dissimilarities symmetric and >= 0", "delta_empty > 0"],
+    # which optimal partition the real MIP solver returns on a tie is its own choice: a counterexample that goes through one particular
+    # optimal answer of a window may not reproduce, so more of them are replayed (one reproducing is enough, see the driver)
+    replays_per_kind=8, replays_max=120,
     cfg_budget_s=dict(quick=240, thorough=900),
     replay_alarm_s=25,
     timeout_is_violation=True,
